@@ -79,6 +79,8 @@ class ConfigNodeMeta(NamespaceableMeta):
                             del kwargs[arg_name]
                             continue
                         setattr(value, '_' + arg_name, kwargs[arg_name])
+                if 'priority' in kwargs:
+                    value._propagate_priority()
                 if any(k.startswith('implicit_') for k in kwargs.keys()):
                     value._propagate_implicit_values()
 
@@ -402,6 +404,9 @@ class ConfigNode(metaclass=ConfigNodeMeta):
                 raise errors.UnsafeError(None, self, path)
 
     def _propagate_implicit_values(self):
+        return
+
+    def _propagate_priority(self):
         return
 
     #
